@@ -8,6 +8,11 @@ import Anko.Proofs.EvalSig
 import Anko.Gen.StmtFlow
 import Anko.Gen.SingleStmtFlow
 import Anko.Props.SingleStmtFlowTable
+import Anko.Props.Tie.SingleStmtFlow
+import Anko.Props.Tie.StmtFlow
+import Anko.Props.Tie.RunFlow
+import Anko.Props.Tie.BindFlow
+import Anko.Props.Tie.CallFlow
 
 set_option linter.unusedSectionVars false
 set_option linter.unusedSimpArgs false
@@ -240,6 +245,21 @@ Every leaf statement of runSingleStmt (the context poll at every statement, expr
 continue, go), runReturnStmt, runDeferStmt (the callee and the arguments are evaluated when the defer statement runs) and callDeferredFunc (the
 call under a recover), with the conditions it stands under, is the one written down in Props/SingleStmtFlowTable next to the model's execStmt. Any edit of these functions - also a harmless one - breaks this obligation by name; the check then
 searches model and implementation for a failing input (DESIGN.md 13.3). -/
-theorem throw_return_and_defer_statements_are_the_modelled_ones : Gen.SingleStmtFlow.leaves = Tables.singleStmtFlow := by decide +kernel
+theorem throw_return_and_defer_statements_are_the_modelled_ones : Gen.SingleStmtFlow.leaves = Tables.singleStmtFlow := Tie.singleStmtFlow
+
+/-! ### Shared source ties
+
+The code this property is anchored in is also written down, leaf statement by leaf statement, by the tables below (each decided once in
+Props/Tie, `decide +kernel`, against the table regenerated from /repo on this run). A change of that code breaks the tie by name here too, and the check of
+this property then searches for a failing input - so a change that breaks this property through code whose primary table belongs to another
+property is not overlooked. -/
+/-- the branch, loop, try and defer functions (vmStmt.go) -/
+theorem source_tie_StmtFlow : Gen.StmtFlow.leaves = Tables.stmtFlow := Tie.stmtFlow
+/-- the entry points, recoverFunc, newError, type and value construction -/
+theorem source_tie_RunFlow : Gen.RunFlow.leaves = Tables.runFlow := Tie.runFlow
+/-- function literals, module, var and assignment statements -/
+theorem source_tie_BindFlow : Gen.BindFlow.leaves = Tables.bindFlow := Tie.bindFlow
+/-- the call machinery (vmExprFunction.go) -/
+theorem source_tie_CallFlow : Gen.CallFlow.leaves = Tables.callFlow := Tie.callFlow
 
 end Anko.C09
